@@ -114,7 +114,7 @@ def cmd_check(a):
                     json.dump(dict(property=prop, harness=hname, tier=tier, job=j.name, obligation=v['obligation'],
                                    inputs=v['inputs'], detail=v.get('detail')), f, indent=1)
                 rc, line = _replay(path, env)
-                if rc == 1:
+                if rc == 10:
                     violations.append((path, v['obligation'], line))
                 else:
                     harness_errors.append('%s: solver model for %s did not reproduce on the real code (%s)' % (j.name, v['obligation'], line[:300]))
@@ -124,7 +124,7 @@ def cmd_check(a):
                     json.dump(dict(property=prop, harness=hname, tier=tier, job=j.name, obligation=k['obligation'],
                                    inputs=k['inputs']), f)
                 rc, line = _replay(path, env)
-                if rc == 4:
+                if rc == 14:
                     known_lines.append((k['finding'], k['obligation'], k['inputs']))
                 else:
                     # a listed deviation that shows only under an abstraction (e.g. an all-zero digest of an uninterpreted
@@ -201,7 +201,7 @@ def cmd_replay(a):
         env = _env(datadir)
         rc, line = _replay(os.path.abspath(a.file), env)
         print(line)
-        return 1 if rc == 1 else 0
+        return 1 if rc == 10 else 0
     finally:
         shutil.rmtree(scratch, ignore_errors=True)
 
